@@ -309,6 +309,9 @@ namespace c08
             {
                 op["op"] = "enforce";
                 op["scale"] = g.pick(std::vector<double>{1.0, 7.0, 1e3, 1e9, -1e9, 1e30});
+                // or a state that is off by a hair (integration drift: a quaternion whose norm is wrong in the 9th digit)
+                if (g.chance(0.3))
+                    op["nudge"] = g.pick(std::vector<double>{2e-9, 6e-9, -4e-9, 1.5e-8, -3e-8});
             }
             if (g.chance(0.35))
                 op["fault"] = rngfault::gen(g, 12);
@@ -494,8 +497,12 @@ namespace c08
                 std::vector<double> r;
                 sp->copyToReals(r, cur);
                 double sc = op.getd("scale", 1.0);
-                for (size_t i = 0; i < r.size(); i++)
-                    r[i] = r[i] * ((i % 2) ? sc : -sc) + (double)i;
+                if (op.has("nudge"))
+                    for (size_t i = 0; i < r.size(); i++)
+                        r[i] = r[i] * (1.0 + op.getd("nudge"));
+                else
+                    for (size_t i = 0; i < r.size(); i++)
+                        r[i] = r[i] * ((i % 2) ? sc : -sc) + (double)i;
                 sp->copyFromReals(cur, r);
                 rngfault::disarm();
                 bool finite = true;
